@@ -4,7 +4,7 @@ import random
 import itertools
 
 from vv import probes
-from vv.probes import ProbeProcess, ProbeStep, Stall
+from vv.probes import ProbeProcess, ProbeStep, DirectorProbe, Stall
 
 from vivarium.core.engine import Engine, EmptyDefer
 
@@ -33,8 +33,12 @@ def build_engine(sc, emitter='verif', parallel=()):
         cfg['pid'] = pid
         if pid in parallel:
             cfg['_parallel'] = True
-        procs[pid] = ProbeProcess(cfg)
-        topo[pid] = {'v': ('v',)}
+        if cfg.get('sops') is not None:
+            procs[pid] = DirectorProbe(cfg)
+            topo[pid] = {'v': ('v',), 'root': ()}
+        else:
+            procs[pid] = ProbeProcess(cfg)
+            topo[pid] = {'v': ('v',)}
     for sid in sc.get('step_order', list(sc.get('steps', {}))):
         cfg = dict(sc['steps'][sid])
         cfg['pid'] = sid
@@ -133,7 +137,8 @@ def to_records(sc, raw, scale=1):
         if k in ('ts', 'cond'):
             p = ev[1]
             r = {'ev': 'poll', 'p': p, 'ts': -1, 'cond': 'N', 'targ': -1,
-                 'handed': 0, 'uid': 0, 'upd': {}, 'view': {}, 'now': 0}
+                 'handed': 0, 'uid': 0, 'upd': {}, 'view': {}, 'now': 0,
+                 'sop': {'op': 'none', 'q': '-'}}
             if k == 'ts':
                 r['ts'] = tick(ev[2])
                 r['now'] = tick(ev[3])
@@ -153,6 +158,11 @@ def to_records(sc, raw, scale=1):
                     r['upd'] = {kk: (tick(vv) if kk == p else vv)
                                 for kk, vv in v[6].items()}
                     i += 1
+                    if i < n and raw[i][0] == 'sop' and raw[i][1] == p:
+                        r['sop'] = {'op': raw[i][2], 'q': raw[i][3]}
+                        if raw[i][2] == 'add':
+                            r['sop']['vars'] = list(raw[i][4])
+                        i += 1
             recs.append(r)
             last_kind = 'poll'
             continue
@@ -280,3 +290,37 @@ def systematic_scenarios(nprocs, ts_set, conds, calls_set, depth):
                     'cond': [a[1] for a in script]}
             yield {'procs': procs, 'order': pids, 'calls': [list(c) for c in calls],
                    'emit_step': 1, 'init': {}}
+
+
+def director_scenario(rng, max_ts=3):
+    """A director (p1) that deletes other processes and creates spare ones while
+    updates with different timesteps are in flight."""
+    sc = random_scenario(rng, nprocs=rng.randint(2, 3), max_ts=max_ts, shared=True)
+    pids = sorted(sc['procs'])
+    spare = ['p%d' % (len(pids) + 1), 'p%d' % (len(pids) + 2)]
+    d = sc['procs']['p1']
+    sops, alive, free = [], set(pids) - {'p1'}, list(spare)
+    for k in range(rng.randint(2, 6)):
+        r = rng.random()
+        if r < 0.35 and alive:
+            q = rng.choice(sorted(alive))
+            alive.discard(q)
+            sops.append({'op': 'del', 'q': q})
+        elif r < 0.65 and free:
+            q = free.pop(0)
+            alive.add(q)
+            sops.append({'op': 'add', 'q': q, 'cfg': {
+                'vars': [q, 's'], 'writes': {'s': [rng.randint(1, 3)]},
+                'ts': [rng.randint(1, max_ts) for _ in range(3)],
+                'cond': [rng.random() < 0.8 for _ in range(3)]}})
+        else:
+            sops.append(None)
+    d['sops'] = sops
+    d['cond'] = [True]
+    sc['calls'] = [[rng.randint(2, 5), rng.random() < 0.6] for _ in range(rng.randint(1, 3))]
+    # variables created processes will declare must be known to the trace
+    for op in sops:
+        if op and op['op'] == 'add':
+            sc.setdefault('init', {})
+    sc['emit_step'] = 1
+    return sc
